@@ -58,10 +58,8 @@ func panicSite(stack string) string {
 			}
 			s = strings.TrimSuffix(s, "(...)")
 			// drop the argument list (addresses differ from run to run): "(*Reader).readBlock(0xc0..)"
-			if strings.HasSuffix(s, ")") {
-				if i := strings.LastIndexByte(s, '('); i > 0 && (i+1 >= len(s) || s[i+1] != '*') {
-					s = s[:i]
-				}
+			if i := strings.LastIndexByte(s, '('); i > 0 && (i+1 >= len(s) || s[i+1] != '*') {
+				s = s[:i]
 			}
 			if i := strings.IndexByte(s, '('); i > 0 && !strings.Contains(s[:i], ".") {
 				continue
